@@ -164,24 +164,84 @@ def trace_steps(r, proj=None):
 
 
 # ------------------------------------------------------------------------------------------ the check
+def split_sim_traces(edges):
+    """EDGE lines of a TLC simulation (workers=1) -> list of behaviours (each a list of {a, t})"""
+    traces, cur, prev_t = [], None, None
+    for e in edges:
+        if not isinstance(e, dict):
+            continue
+        ks = canon(e["s"])
+        if cur is None or ks != prev_t:
+            cur = []
+            traces.append(cur)
+        cur.append({"a": e["a"], "t": e["t"]})
+        prev_t = canon(e["t"])
+    return traces
+
+
+def parallel(ctx, jobs):
+    """jobs: {name: callable}; run concurrently (TLC runs are independent processes)"""
+    from concurrent.futures import ThreadPoolExecutor
+    out = {}
+    with ThreadPoolExecutor(max_workers=len(jobs)) as ex:
+        futs = {k: ex.submit(f) for k, f in jobs.items()}
+        for k, f in futs.items():
+            out[k] = f.result()
+    return out
+
+
+def warm_build(ctx):
+    """compile the driver while TLC runs"""
+    import subprocess
+    vlib.gen_go_mod()
+    subprocess.run(["go", "test", "-tags", "verif", "-count=1", "-vet=off", "-run", "^$", "./drivers/peers"],
+                   cwd=vlib.HARNESS, env=vlib.go_env(), stdout=subprocess.DEVNULL, stderr=subprocess.DEVNULL)
+
+
+MGR_CONSTS = {"peers1": ["p1"], "peers2": ["p1", "p2"], "chain": ["h1", "h2"], "first": 11}
+
+
 def run(ctx):
     quick = ctx.quick
     rng = random.Random(ctx.seed)
     plan = {}
-    ctx.assume("bounded instances: 2-3 caller threads, 2-3 peers, <= 2 timer goroutines alive, clock <= 4 ticks")
+    W = vlib.NCPU
+    ctx.assume("bounded instances: 2-3 caller threads, 1-3 peers, <= 2 timer goroutines alive, clock <= 4 ticks; "
+               "manager: 1-2 peers, 2 chain hashes (+1 fake hash in recorded walks), heights {0,11,12}")
     ctx.assume("the mock clock (benbjohnson/clock) stands for real time: a timer's function starts in its own goroutine "
-               "some time after the deadline")
+               "some time after the deadline; a cool-down of one hour never expires during a manager replay")
+    ctx.assume("trusted: the verif accessors (VerifGCOnce = body of one GC iteration, VerifAgePool) and the hook placement "
+               "(events emitted while the reported mutex is held)")
 
-    # 1. the code as it is: fine-grained model, deadlock check ON, all safety invariants
     fine_cfg = "peers/PoolFineQuick.cfg" if quick else "peers/PoolFineThorough.cfg"
-    r = ctx.tlc(SPEC, fine_cfg, timeout=1500, coverage=not quick)
-    if r.ok:
+    atomic_cfg = "peers/PoolAtomicQuick.cfg" if quick else "peers/PoolAtomic.cfg"
+    mgr_cfg = "peers/ManagerQuick.cfg" if quick else "peers/ManagerThorough.cfg"
+    jobs = {
+        # 1. the code as it is: fine-grained model, deadlock check ON, all safety invariants
+        "fine": lambda: ctx.tlc(SPEC, fine_cfg, timeout=2400, coverage=not quick, workers=max(2, W // 2)),
+        # 2. model variant with callbacks under the queue mutex (tree before the deadlock fix): TLC must find the cycle
+        "origlock": lambda: ctx.tlc(SPEC, "peers/PoolFineOrigLock.cfg", must_pass=False, count=False, timeout=900, workers=2),
+        # 3. model variant without the cool-down counter: TLC must find NoEarlyReturn
+        "origcount": lambda: ctx.tlc(SPEC, "peers/PoolAtomicOrigCount.cfg", must_pass=False, count=False, timeout=900, workers=1),
+        # 4. atomic-method state graph (printed edge by edge)
+        "atomic": lambda: ctx.tlc(SPEC, atomic_cfg, timeout=2400, workers=2 if quick else 4),
+        # 5. the manager as it is / without the black-list fix / simulated behaviours for the replay
+        "mgr": lambda: ctx.tlc("peers/MCManager.tla", mgr_cfg, timeout=2400, workers=max(2, W // 4)),
+        "mgrorig": lambda: ctx.tlc("peers/MCManager.tla", "peers/ManagerOrig.cfg", must_pass=False, count=False, timeout=900, workers=1),
+        "mgrsim": lambda: ctx.tlc("peers/MCManager.tla", "peers/ManagerSim.cfg", count=False, timeout=900, workers=1, deadlock=False,
+                                  simulate="num=%d" % (120 if quick else 1500), depth=16, seed=ctx.seed),
+        "build": lambda: warm_build(ctx),
+    }
+    if not quick:
+        jobs["live"] = lambda: ctx.tlc(SPEC, "peers/PoolLive.cfg", timeout=2400, workers=max(2, W // 4))
+    R = parallel(ctx, jobs)
+    if R["fine"].ok and R["mgr"].ok:
         ctx.cover(exhaustive=True)
+    if not quick and R["fine"].coverage:
+        ctx.require_coverage(R["fine"], ["LockPool", "LockQueue", "CooldownPush", "CooldownBody", "ReleaseScan", "CallbackBody", "Tick", "TryGetBody"])
 
-    # 2. model variant with the callbacks under the queue mutex (tree before the deadlock fix): TLC must find the
-    #    deadlock; its schedule is then forced on the real code
-    r = ctx.tlc(SPEC, "peers/PoolFineOrigLock.cfg", must_pass=False, count=False, timeout=900)
-    if r.violated == "deadlock" or r.violated == "NoLockCycle":
+    r = R["origlock"]
+    if r.violated in ("deadlock", "NoLockCycle"):
         steps = trace_steps(r)
         c = cfg_consts("peers/PoolFineOrigLock.cfg")
         if steps:
@@ -191,8 +251,7 @@ def run(ctx):
         ctx.inconclusive("the model variant with callbacks under the queue mutex did not produce the expected deadlock "
                          "counterexample (violated=%s)" % r.violated)
 
-    # 3. model variant without the cool-down counter: TLC must find NoEarlyReturn; replayed on the real pool
-    r = ctx.tlc(SPEC, "peers/PoolAtomicOrigCount.cfg", must_pass=False, count=False, timeout=900)
+    r = R["origcount"]
     if r.violated == "NoEarlyReturn":
         steps = trace_steps(r, pool_proj)
         c = cfg_consts("peers/PoolAtomicOrigCount.cfg")
@@ -203,28 +262,96 @@ def run(ctx):
         ctx.inconclusive("the model variant without the cool-down counter did not produce the expected NoEarlyReturn "
                          "counterexample (violated=%s)" % r.violated)
 
-    # 4. atomic-method state graph -> paths replayed on the real pool
-    atomic_cfg = "peers/PoolAtomicQuick.cfg" if quick else "peers/PoolAtomic.cfg"
-    r = ctx.tlc(SPEC, atomic_cfg, timeout=1500, workers=4)
+    r = R["atomic"]
     g = Graph(r.printed.get("EDGE", []))
     if g.root is None:
         ctx.inconclusive("atomic state graph: no unique root (%d candidates, %d edges)" % (len(g.roots), g.n_edges))
     else:
         c = cfg_consts(atomic_cfg)
-        paths, covered = g.paths(rng, 500 if quick else 6000)
+        paths, covered = g.paths(rng, 400 if quick else 8000)
         plan["pool"] = {"ttl": c["TTL"], "cleanup": c["CleanupThreshold"], "slots": c["slots"], "paths": paths}
         ctx.cover(pool_graph_edges=g.n_edges, pool_graph_edges_replayed=covered, pool_graph_nodes=len(g.nodes))
         ctx.log("atomic graph: %d nodes, %d edges; %d paths cover %d edges" % (len(g.nodes), g.n_edges, len(paths), covered))
 
+    r = R["mgrorig"]
+    if r.violated == "BlacklistedNeverOffered":
+        steps = []
+        for _, st in r.trace[1:]:
+            p = plain(st)
+            steps.append({"a": p["last"], "t": {k: p[k] for k in ("pools", "nodes", "blocked", "blHashes", "initialHeight",
+                                                                   "storeFrom", "head", "reqs")}})
+        plan["mwitness"] = [{"name": "blacklisted", "peers": MGR_CONSTS["peers1"], "hashes": MGR_CONSTS["chain"],
+                             "enable_blacklisting": True, "steps": steps}]
+    else:
+        ctx.inconclusive("the manager model variant without the black-list fix did not produce the expected counterexample "
+                         "(violated=%s)" % r.violated)
+
+    r = R["mgrsim"]
+    sims = split_sim_traces(r.printed.get("EDGE", []))
+    if not sims:
+        ctx.inconclusive("no simulated manager behaviours")
+    plan["mwitness"] = plan.get("mwitness", []) + [
+        {"name": "sim%d" % i, "peers": MGR_CONSTS["peers1"], "hashes": MGR_CONSTS["chain"], "enable_blacklisting": True, "steps": t}
+        for i, t in enumerate(sims)]
+    ctx.cover(manager_behaviours_generated=len(sims))
+
+    # B1: concurrent stress of the pool and random walks on the manager, recorded for trace validation
+    pool_trace = os.path.join(ctx.work, "pool_trace.ndjson")
+    mgr_trace = os.path.join(ctx.work, "manager_trace.ndjson")
+    plan["stress"] = {"runs": 12 if quick else 120, "workers": ["c1", "c2", "c3", "c4"], "peers": ["p1", "p2", "p3"],
+                      "ops": 12, "ticks": 8, "ttl": 2, "cleanup": 2, "out": pool_trace}
+    plan["mtrace"] = {"peers": MGR_CONSTS["peers2"], "hashes": MGR_CONSTS["chain"] + ["hx"], "chain": MGR_CONSTS["chain"],
+                      "first_height": MGR_CONSTS["first"], "msg_heights": [0, 11, 12], "enable_blacklisting": True,
+                      "walks": 40 if quick else 600, "len": 25, "out": mgr_trace}
+
     plan_path = os.path.join(ctx.work, "plan.json")
     json.dump(plan, open(plan_path, "w"))
-    rep = ctx.go_driver("peers", env={"VERIF_PLAN": plan_path}, timeout=1500)
+    rep = ctx.go_driver("peers", env={"VERIF_PLAN": plan_path}, timeout=2400)
     summ = rep.get("summary", {})
+    cnt = rep.get("counters", {})
+
+    # ---- trace validation (B1)
+    def validate(kind, spec, cfg, path, var):
+        if not os.path.exists(path) or os.path.getsize(path) == 0:
+            ctx.inconclusive("%s trace missing" % kind)
+            return None
+        os.environ[var] = path
+        t = ctx.tlc(spec, cfg, must_pass=False, count=False, workers=1, deadlock=False, timeout=1500)
+        return t
+
+    tv = parallel(ctx, {
+        "pool": lambda: validate("pool", "peers/PoolTrace.tla", "peers/PoolTrace.cfg", pool_trace, "VERIF_TRACE"),
+        "mgr": lambda: validate("manager", "peers/ManagerTrace.tla", "peers/ManagerTrace.cfg", mgr_trace, "VERIF_MTRACE"),
+    })
+    for kind, t in tv.items():
+        if t is None:
+            continue
+        stuck = t.printed.get("STUCK")
+        if t.ok and not t.violated:
+            n = cnt.get("stress_runs", 0) if kind == "pool" else cnt.get("manager_random_walks", 0)
+            ctx.cover(traces_validated_against_impl=n)
+            ctx.log("%s traces accepted by the specification (%d states)" % (kind, t.distinct))
+        elif t.violated == "postcondition" or stuck:
+            line = (stuck or [{}])[0]
+            detail = trace_line(pool_trace if kind == "pool" else mgr_trace, line.get("line") if isinstance(line, dict) else None)
+            why = "%s trace rejected by the specification at line %s: %s" % (kind, line, detail)
+            if kind == "pool":
+                # is it the lock structure of the tree before the fixes? (diagnosis; the verdict comes from the gated schedule)
+                os.environ["VERIF_TRACE"] = pool_trace
+                o = ctx.tlc("peers/PoolTrace.tla", "peers/PoolTraceOrig.cfg", must_pass=False, count=False, workers=1, deadlock=False, timeout=900)
+                if o.ok and not o.violated:
+                    why += " -- the trace IS accepted by the model variant with callbacks under the queue mutex and no cool-down counter"
+            ctx.inconclusive("conformance drift: " + why)
+        elif t.violated:
+            # an invariant of the specification fails on a behaviour OF THE REAL CODE
+            ctx.violation("C17/%s/trace-invariant/%s" % (kind, t.violated),
+                          "invariant %s of the specification is violated on a recorded execution of the real code (log %s)" % (t.violated, t.log_path),
+                          {"trace_file": pool_trace if kind == "pool" else mgr_trace, "tlc_trace": [plain(s) for _, s in t.trace][-6:]})
+
     for s in rep.get("samples", [])[:6]:
         ctx.sample(s)
 
-    # vacuity / binding sanity
-    cnt = rep.get("counters", {})
+    # ---- vacuity / binding sanity
     if plan.get("pool") and cnt.get("pool_paths_replayed", 0) < len(plan["pool"]["paths"]):
         ctx.inconclusive("only %s of %d pool paths were replayed" % (cnt.get("pool_paths_replayed"), len(plan["pool"]["paths"])))
     fa = summ.get("fine_abba")
@@ -238,4 +365,31 @@ def run(ctx):
     elif we and we.get("monitor_hits", 0) == 0 and not we.get("diverged"):
         ctx.inconclusive("early-return witness: the real pool followed the counterexample of the unfixed model to the end "
                          "but no monitor fired: %s" % we)
-    ctx.cover(deadlock_schedule=fa, early_return_witness=we)
+    mb = summ.get("mwitness_blacklisted")
+    if any(w["name"] == "blacklisted" for w in plan.get("mwitness", [])):
+        if not mb:
+            ctx.inconclusive("the black-list witness was not executed")
+        elif not mb.get("diverged") and mb.get("violations", 0) == 0:
+            ctx.inconclusive("black-list witness: the real manager followed the counterexample of the unfixed model to the "
+                             "end but no monitor fired: %s" % mb)
+    bad_sims = [(k, v) for k, v in summ.items() if k.startswith("mwitness_sim") and v.get("diverged")]
+    if bad_sims:
+        ctx.inconclusive("conformance drift (manager): %d of %d simulated behaviours not followed by the real manager; first: %s"
+                         % (len(bad_sims), len(sims), bad_sims[0]))
+    ctx.cover(deadlock_schedule=fa, early_return_witness=we, blacklist_witness=mb,
+              traces_validated_against_impl=len(sims) - len(bad_sims))
+
+
+def trace_line(path, n):
+    try:
+        if n is None:
+            return ""
+        with open(path) as f:
+            for i, l in enumerate(f, 1):
+                if i == int(n) - 1 or i == int(n):
+                    last = l.strip()
+                if i == int(n):
+                    break
+        return last[:500]
+    except Exception:
+        return ""
